@@ -42,6 +42,8 @@ theorem triage_expedited (cfg : Cfg) (c index sub : Nat) (complete : Bool) (obj 
     simp
   rw [triage_eq_bytes _ _ _ _ (mkPdu_ok _ _), mkPdu_bytes, himg]
   unfold triageB
+  rw [unpackCoeHeaders_cons _ _ _ _ _ _ _ _ _ (by rw [bits_type]; exact validMbx3)
+    (by rw [show (48 : Nat) = 16 * 3 from rfl, bits_svc 3 (by decide)]; exact validSvc3)]
   rw [unpackHeadersRaw_cons _ _ _ _ _ _ _ _ _ _ _ _ _ (by rw [bits_type]; exact validMbx3)
     (by rw [show (48 : Nat) = 16 * 3 from rfl, bits_svc 3 (by decide)]; exact validSvc3)
     (by rw [hb.2.2.2.2]; exact validCmd2)]
@@ -81,6 +83,8 @@ theorem triage_normal (cfg : Cfg) (c index sub : Nat) (complete : Bool) (complet
     simp
   rw [triage_eq_bytes _ _ _ _ (mkPdu_ok _ _), mkPdu_bytes, himg]
   unfold triageB
+  rw [unpackCoeHeaders_cons _ _ _ _ _ _ _ _ _ (by rw [bits_type]; exact validMbx3)
+    (by rw [show (48 : Nat) = 16 * 3 from rfl, bits_svc 3 (by decide)]; exact validSvc3)]
   rw [unpackHeadersRaw_cons _ _ _ _ _ _ _ _ _ _ _ _ _ (by rw [bits_type]; exact validMbx3)
     (by rw [show (48 : Nat) = 16 * 3 from rfl, bits_svc 3 (by decide)]; exact validSvc3)
     (by rw [hb.2.2.2.2]; exact validCmd2)]
